@@ -554,10 +554,16 @@ func vmHistory(t *vmToks) (res string) {
 	}()
 
 	nops := int(t.i64())
+	lastNow := int64(-1)
 	for i := 0; i < nops; i++ {
 		op := t.next()
 		now := t.i64()
-		s.setClock(now)
+		if now != lastNow {
+			// the storage worker reads the clock while it executes a request: nothing may be in flight when it moves
+			s.barrier()
+			s.setClock(now)
+			lastNow = now
+		}
 		switch op {
 		case "B":
 			c, tp, p, cnt, off := t.i64(), t.i64(), t.i64(), t.i64(), t.i64()
@@ -642,7 +648,7 @@ func TestVerifProbeMetrics(t *testing.T) {
 			continue
 		}
 		tk := &vmToks{f: strings.Fields(line)}
-		if k := tk.next(); k != "sys" {
+		if k := tk.next(); k != "sys" && k != "sys0" {
 			t.Fatalf("unknown case kind %q", k)
 		}
 		fmt.Fprintln(w, vmHistory(tk))
